@@ -73,12 +73,15 @@ var cwdPrefix string
 
 // relCwd strips the worker's own working directory from an absolute path (a root given as an
 // absolute path makes every INCLUDE path absolute too); everything else is left as handed over.
-func relCwd(p string) string {
-	if cwdPrefix == "" {
-		if wd, err := os.Getwd(); err == nil {
-			cwdPrefix = wd + "/"
-		}
+// initCwd is called once, single-threaded, after the worker has changed into its directory
+// (relCwd is called from concurrent tasks and must not write).
+func initCwd() {
+	if wd, err := os.Getwd(); err == nil {
+		cwdPrefix = wd + "/"
 	}
+}
+
+func relCwd(p string) string {
 	if cwdPrefix != "" && strings.HasPrefix(p, cwdPrefix) {
 		return p[len(cwdPrefix):]
 	}
